@@ -133,6 +133,8 @@ class NcpEzsp:
 
     def on_reset(self):
         self.negotiated = False
+        for h in getattr(self, "reset_hooks", []):
+            h()
 
     def receive(self, data: bytes):
         # an NCP understands its native layout only; in addition every version answers the legacy
